@@ -181,7 +181,7 @@ const c07RandomRule = "seeded random racing scenarios: entry point x workers {Wi
 func TestVerifC07Random(t *testing.T) {
 	m := vk.New(t, "C07", c07RandomRule)
 	defer m.Done()
-	c07RunRandom(t, m, 10000000, c07N(30000, 400000, 30000), "random")
+	c07RunRandom(t, m, 10000000, c07N(16000, 400000, 30000), "random")
 }
 
 // TestVerifC07CtxAlreadyDone: the context is done before the call is made; the statement
@@ -199,7 +199,7 @@ func TestVerifC07CtxAlreadyDone(t *testing.T) {
 	}
 	ctx, cancel := context.WithCancel(context.Background())
 	cancel()
-	n := vk.N(240000, 3000000)
+	n := vk.N(150000, 3000000)
 	entries := []string{"MapReduce", "MapReduceVoid", "MapReduceChan"}
 	sizes := []int{0, 1, 3}
 	workers := []int{1, 2, 16}
@@ -288,7 +288,7 @@ func TestVerifC07CtxAlreadyDone(t *testing.T) {
 func TestVerifC07RaceRandom(t *testing.T) {
 	m := vk.New(t, "C07", "under the race detector: "+c07RandomRule)
 	defer m.Done()
-	c07RunRandom(t, m, 30000000, vk.N(5000, 80000), "race-random")
+	c07RunRandom(t, m, 30000000, vk.N(4000, 80000), "race-random")
 }
 
 func TestVerifC07RaceGated(t *testing.T) {
